@@ -6,8 +6,9 @@
 (*   XRefStm stream are listed x free marks for hidden numbers or none x free list chained or not x W        *)
 (*   layout x filter on the structural streams                                                               *)
 (* for a handful of small histories written out below.  The lexical freedoms (separators, spellings, line    *)
-(* ends) are pinned to one canonical choice by the action constraint Canon - they are covered by the         *)
-(* simulation runs of Gen_File_{free,hybrid,beyond}.cfg and by MC_Syntax.  Invariants (from Gen_File):        *)
+(* ends) are pinned to one canonical choice - the configuration replaces the choice sets by singletons and   *)
+(* the action constraint Canon keeps the shortest separator - they are covered by the simulation runs of      *)
+(* Gen_File_{free,hybrid,beyond}.cfg and by MC_Syntax.  Invariants (from Gen_File):                           *)
 (*   RoundTrip    the StrictReader reads back the history's View, the deleted numbers with their next        *)
 (*                generation, the free list, the hybrid sections and the hidden objects                       *)
 (*   ImplRefines  the loader-shaped section-by-section lookup, all deviations off, defines the same objects   *)
